@@ -8,7 +8,11 @@ from .common import cps, tohex
 LIMITS = {"byte": 256, "char": 253, "short": 253 ** 2, "three": 253 ** 3, "int": 253 ** 4}
 SIZES = {"byte": 1, "char": 1, "short": 2, "three": 3, "int": 4}
 ALPHA = ["A", "b", " ", "~", "\xff", "y", "€", "Δ", "\U0001F600", "\ud800", "\x81", "\x00",
-         "!", '"', "O", "P", "}", "\x7f", "\xa0", "\xfe", "Ÿ", "?"]
+         "!", '"', "O", "P", "}", "\x7f", "\xa0", "\xfe", "Ÿ", "?",
+         # sequences and characters that Unicode normalisation would change (the writer must not: lengths are counted in
+         # code points of the string as given): decomposed e-acute / y-diaeresis, lone combining marks, Angstrom and Ohm
+         # signs, a ligature, a full-width letter
+         "e\u0301", "y\u0308", "\u0301", "\u0308", "\u212b", "\u2126", "\ufb01", "\uff21", "\xe9"]
 
 
 def mods():
